@@ -615,6 +615,10 @@ func disjuncts(p *core.Prog, v ssa.Value, want bool) []core.Fact {
 }
 
 func disjunctsRec(p *core.Prog, v ssa.Value, want bool, seen map[ssa.Value]bool) []core.Fact {
+	// !x has the wanted value when x has the other one
+	if u, isNot := v.(*ssa.UnOp); isNot && u.Op == token.NOT {
+		return disjunctsRec(p, u.X, !want, seen)
+	}
 	ph, ok := v.(*ssa.Phi)
 	if !ok || seen[v] {
 		return nil
@@ -638,11 +642,20 @@ func disjunctsRec(p *core.Prog, v ssa.Value, want bool, seen map[ssa.Value]bool)
 			out = append(out, p.FactOf(core.Guard{Cond: iff.Cond, Pol: pred.Succs[0] == ph.Block(), If: iff}))
 			continue
 		}
-		if _, isPhi := e.(*ssa.Phi); isPhi {
-			if seen[e] {
+		inner0 := e
+		neg := false
+		for {
+			u, isNot := inner0.(*ssa.UnOp)
+			if !isNot || u.Op != token.NOT {
+				break
+			}
+			inner0, neg = u.X, !neg
+		}
+		if _, isPhi := inner0.(*ssa.Phi); isPhi {
+			if seen[inner0] {
 				continue
 			}
-			inner := disjunctsRec(p, e, want, seen)
+			inner := disjunctsRec(p, inner0, want != neg, seen)
 			if inner == nil {
 				return nil
 			}
